@@ -71,7 +71,7 @@ def pubrec_keeps_slot(F, R, ver):
     # a `matches!` first branches on the discriminant to set a bool and then on the bool: keep the deciding (last) edge
     edges = [(s_, t_) for s_, t_ in edges if not any((s2, t2) != (s_, t_) and s2 in b.reachable(t_) for s2, t2 in edges)]
     requeue = {x[0] for x in calls_on_field(b, r'VecDeque::<T, A>::push_back$', 'inflight')}
-    oks = [bi for bi, j, s in b.assigns() if s['lhs']['l'] == 0 and s['rv']['k'] == 'agg' and s['rv'].get('variant') == 'Ok']
+    oks = [bi for bi, j, s in b.assigns() if s['lhs']['l'] in b.ret_locals and s['rv']['k'] == 'agg' and s['rv'].get('variant') == 'Ok']
     # Ok exits reachable from the PUBREC edge (the `Ok(())` may be shared by all arms after the match)
     in_rec = [x for x in oks if any(x == t_ or x in b.reachable(t_) for s_, t_ in edges)]
     R.ob('C05.single-enqueue', '%s|pkt_ack_inner|PUBREC-branch-found' % ver, bool(edges) and bool(in_rec), 'could not locate the PUBREC branch (edges %d, Ok exits %d)' % (len(edges), len(in_rec)))
